@@ -42,7 +42,7 @@ int g_exit_done;          /* myth_startpoint_exit_ex_body(0) was called */
 int g_released;           /* myth_fini_body_really was called */
 int g_k;                  /* witness worker index */
 /* context switch / migration */
-int g_ctx_saved, g_passed, g_passed_rank, g_tidx, g_switched, g_cleanup_calls;
+int g_ctx_saved, g_passed, g_passed_rank, g_switched, g_cleanup_calls;
 int g_refusals;            /* bounded job only: how many more times a run queue may refuse the hand-over (lock busy / no room) */
 
 extern volatile int g_myth_init_state;
@@ -154,13 +154,15 @@ void * worker_thread_fn_contract(void * args)
   __CPROVER_ensures(g_main_started == 1);
 
 /* ---------------- contracts: finalisation ---------------- */
-/* proved below (job c15.fini.exit) on the real myth_startpoint_exit_ex_body */
+/* checked (bounded) in job c15.fini.exit.bounded on the real myth_startpoint_exit_ex_body.  Its stores into the exit_flag
+   fields of the descriptors are NOT modelled here (myth_fini_body never reads them; a whole-array havoc of the 2560-byte
+   descriptors is beyond the solver); "rank == index" of descriptor 0 is a fact established by myth_setup_worker and is a
+   precondition of the harness */
 void exit_ex_contract(int rank)
   __CPROVER_requires(rank == 0 && g_exit_done == 0 && g_joined == 0 && g_released == 0)
-  __CPROVER_requires(0 <= g_worker_rank && g_worker_rank < g_nw && 0 <= g_k && g_k < g_nw)
-  __CPROVER_assigns(g_exit_done, g_worker_rank, __CPROVER_object_whole(g_pool))
-  __CPROVER_ensures(g_exit_done == 1 && g_worker_rank == 0 && g_pool[0].rank == 0)      /* back on worker 0 */
-  __CPROVER_ensures(g_pool[g_k].exit_flag != 0);                                       /* every worker was told to stop */
+  __CPROVER_requires(0 <= g_worker_rank && g_worker_rank < g_nw)
+  __CPROVER_assigns(g_exit_done, g_worker_rank)
+  __CPROVER_ensures(g_exit_done == 1 && g_worker_rank == 0);      /* back on worker 0, every worker told to stop */
 
 int pthread_join_contract(pthread_t thread, void ** retval)
   __CPROVER_requires(g_exit_done == 1 && g_released == 0)          /* joins only workers that were told to stop, before releasing */
@@ -210,6 +212,38 @@ void cleanup_worker_contract(int rank)
   __CPROVER_requires(0 <= g_k && g_k < g_nw && g_pool[g_k].exit_flag != 0)   /* after every worker was told to stop */
   __CPROVER_assigns(g_cleanup_calls) __CPROVER_ensures(g_cleanup_calls == 1);
 
+/* ---------------- contracts: myth_setup_worker ---------------- */
+int g_rank;               /* the rank myth_setup_worker is called with */
+int g_su_alloc, g_su_queue, g_su_barrier, g_su_key;
+__thread unsigned int g_myth_random_temp;
+void flmalloc_init_worker_contract(int rank)
+  __CPROVER_requires(rank == g_rank) __CPROVER_assigns(g_su_alloc) __CPROVER_ensures(g_su_alloc == 1);
+int setspecific_contract(pthread_key_t key, const void * v)
+  __CPROVER_requires(v != 0) __CPROVER_assigns(g_su_key) __CPROVER_ensures(g_su_key == 1);
+time_t time_contract(time_t * t)
+  __CPROVER_requires(t == 0) __CPROVER_assigns() __CPROVER_ensures(0 <= __CPROVER_return_value && __CPROVER_return_value < 4294967296L);
+void queue_init_contract(myth_thread_queue_t q)
+  __CPROVER_requires(q == &g_pool[g_rank].runnable_q && g_su_alloc == 1) __CPROVER_assigns(g_su_queue) __CPROVER_ensures(g_su_queue == 1);
+void queue_clear_contract(myth_thread_queue_t q)
+  __CPROVER_requires(q == &g_pool[g_rank].runnable_q && g_su_queue == 1) __CPROVER_assigns(g_su_queue) __CPROVER_ensures(g_su_queue == 2);
+/* the start-up barrier: a worker arrives only when its descriptor is complete (rank, exit flag, run queue, no current
+   thread) and its OS thread knows its rank -- after the barrier every worker may be looked at by every other */
+void barrier_wait_contract(myth_internal_barrier_t * b)
+  __CPROVER_requires(b == &g_worker_barrier && g_su_barrier == 0 && g_su_queue == 2 && g_su_key == 1)
+  __CPROVER_requires(g_pool[g_rank].rank == g_rank && g_pool[g_rank].exit_flag == 0 && g_pool[g_rank].this_thread == 0 && g_worker_rank == g_rank)
+  __CPROVER_assigns(g_su_barrier) __CPROVER_ensures(g_su_barrier == 1);
+int sigemptyset_contract(sigset_t * s)
+  __CPROVER_requires(__CPROVER_w_ok(s, sizeof(sigset_t))) __CPROVER_assigns(*s) __CPROVER_ensures(1);
+int sigaddset_contract(sigset_t * s, int sig)
+  __CPROVER_requires(__CPROVER_w_ok(s, sizeof(sigset_t))) __CPROVER_assigns(*s) __CPROVER_ensures(1);
+int sigmask_contract(int how, const sigset_t * s, sigset_t * o)
+  __CPROVER_requires(g_rank != 0 && o == 0) __CPROVER_assigns() __CPROVER_ensures(1);
+int sigaction_contract(int sig, const struct sigaction * a, struct sigaction * o)
+  __CPROVER_requires(g_rank == 0 && o == 0) __CPROVER_assigns() __CPROVER_ensures(1);
+
+void * keep_c15d[] = { (void *)flmalloc_init_worker_contract, (void *)setspecific_contract, (void *)time_contract, (void *)queue_init_contract,
+  (void *)queue_clear_contract, (void *)barrier_wait_contract, (void *)sigemptyset_contract, (void *)sigaddset_contract, (void *)sigmask_contract,
+  (void *)sigaction_contract };
 void * keep_c15c[] = { (void *)myth_verif_env_step, (void *)really_contract, (void *)yield_contract, (void *)get_available_cpus_contract,
   (void *)globalattr_init_contract, (void *)flmalloc_init_contract, (void *)tls_init_contract, (void *)barrier_init_contract,
   (void *)malloc_contract, (void *)worker_key_init_contract, (void *)pthread_create_contract, (void *)pthread_self_contract,
@@ -233,6 +267,12 @@ void h_init_once(void) {
   _Bool with_attr = nondet_bool();
   _Bool implicit = nondet_bool();
   g_attr_arg = (with_attr && !implicit) ? &A : 0;
+  /* some callers have first waited for somebody else's initialisation (this also keeps the wait loop, and with it the
+     loop-contract obligations, in the job even if the code under proof stops calling it) */
+  if (nondet_bool()) {
+    myth_init_once_ctl_wait(&g_myth_init_state, myth_init_state_initialized);
+    __CPROVER_assert(g_myth_init_state == 2 && g_W == 2, "ctl_wait: returns only when the awaited value was observed");
+  }
   int r = implicit ? myth_ensure_init() : (nondet_bool() ? myth_ensure_init_ex((myth_globalattr_t *)g_attr_arg) : myth_init_ex_body(g_attr_arg));
   __CPROVER_assert(r == 1, "init: returns 1 (OK)");
   __CPROVER_assert(g_really_calls == g_cas_won, "init: the real initialisation runs iff this caller won the election CAS (exactly once per uninit period)");
@@ -293,6 +333,7 @@ void h_fini(void) {
   g_envs = g_pool; g_envs_sz = g_nw;
   g_worker_rank = nondet_int();                       /* the main thread may have migrated to any worker */
   __CPROVER_assume(0 <= g_worker_rank && g_worker_rank < g_nw);
+  __CPROVER_assume(g_pool[0].rank == 0);              /* established by myth_setup_worker */
   g_exit_done = 0; g_joined = 0; g_released = 0;
   int w0 = g_W;
   int r = myth_fini_body();
@@ -347,6 +388,30 @@ void h_exit_ex(void) {
 }
 #endif
 
+/* every worker's set-up: rank == index, exit flag clear, OS thread knows its rank (what get_worker_num relies on) */
+void h_setup_worker(void) {
+  setup_workers();
+  g_attr.n_workers = g_nw;
+  g_envs = g_pool; g_envs_sz = g_nw;
+#ifdef SETUP_RANK
+  g_rank = SETUP_RANK;                                /* constant index: see the note of job c15.setup_worker.* */
+#else
+  g_rank = nondet_int();
+#endif
+  __CPROVER_assume(0 <= g_rank && g_rank < g_nw);
+  g_worker_rank = nondet_int();
+  g_su_alloc = 0; g_su_queue = 0; g_su_barrier = 0; g_su_key = 0;
+  myth_setup_worker(g_rank);
+  __CPROVER_assert(g_pool[g_rank].rank == g_rank, "setup_worker: descriptor rank == index");
+  __CPROVER_assert(g_worker_rank == g_rank, "setup_worker: the OS thread knows its rank");
+  __CPROVER_assert(g_pool[g_rank].exit_flag == 0, "setup_worker: exit flag clear (a fresh initialisation is not stopped by a stale flag)");
+  __CPROVER_assert(g_pool[g_rank].this_thread == 0, "setup_worker: no current thread");
+  __CPROVER_assert(g_su_barrier == 1, "setup_worker: meets the other workers at the start-up barrier exactly once");
+  myth_running_env_t e = myth_get_current_env();
+  __CPROVER_assert(e == &g_pool[g_rank], "setup_worker: myth_get_current_env yields this worker's descriptor");
+  VERIF_CANARY();
+}
+
 /* worker index and count */
 void h_worker_num(void) {
   setup_workers();
@@ -355,7 +420,8 @@ void h_worker_num(void) {
   g_W = 2; g_i_init = 0; g_env_init = 0; g_myth_init_state = 2; g_cas_won = 0; g_really_calls = 0;   /* initialised */
   g_worker_rank = nondet_int();
   __CPROVER_assume(0 <= g_worker_rank && g_worker_rank < g_nw);
-  g_pool[g_worker_rank].rank = g_worker_rank;         /* established by myth_setup_worker */
+  __CPROVER_assume(g_pool[g_worker_rank].rank == g_worker_rank);         /* established by myth_setup_worker */
+  if (nondet_bool()) myth_init_once_ctl_wait(&g_myth_init_state, myth_init_state_initialized);   /* see h_init_once */
   int w = myth_get_worker_num_body();
   int n = myth_get_num_workers_body();
   __CPROVER_assert(n == g_nw, "get_num_workers: exactly the number of workers the library runs with");
